@@ -169,6 +169,16 @@ prop('C13', 'other',
      'record parsers; area/zone columns.',
      'symbolic execution of the real format converters + z3', 'DESIGN.md 3/C13')
 
+prop('C15', 'other',
+     'PARTIAL. Tag flow (every stored value a distinct symbol, z3 decides equality) through the real DAE.store, '
+     'DAETimeSeries.unpack_np/get_data, System.set_output_subidx/Output.to_output_addr on a real dynamic System for 3 stored steps and '
+     'four Output selections (all / model / variable / device): one row per stored step with its time, exactly the selected '
+     'columns, labels naming the kept slots, queries by variable and by device subset return those devices; the storing branch of '
+     'the TDS.run loop (cut from source) keeps exactly the due steps for save_every 0..3; real DAE.write_npz chunking with the file '
+     'replaced by an in-memory store writes every row once, in order.',
+     'NOT covered (not encodable): npz/lst/csv files, the plotting loader TDSData, replay from csv; store_z/f/h/i arrays.',
+     'symbolic tag flow through the real storage code + z3', 'DESIGN.md 3/C15')
+
 ORDER = ['C%02d' % i for i in range(1, 21)]
 checks, na = [], []
 for pid in ORDER:
